@@ -33,7 +33,7 @@ VALUES = [0, 1.5, "text", "", [1, 2, {"a": None}], {"k": [True, False]}, None]
 def make_jobs(rng: Rng, n: int) -> list[dict]:
     jobs = []
     for i in range(n):
-        kind = rng.choice(["ret", "chain", "chain-ok", "eager", "disabled", "exc", "recurring"])
+        kind = rng.choice(["ret", "chain", "chain-ok", "eager", "disabled", "exc", "recurring", "badret"])
         j = {"id": f"r{i}", "retries": 0, "store_result": kind != "disabled", "timeout": 2 * S,
              "result_ttl": rng.choice([S, 60 * S, 86400 * S])}
         v = rng.choice(VALUES)
@@ -41,6 +41,8 @@ def make_jobs(rng: Rng, n: int) -> list[dict]:
             j["plan"] = [{"k": "ret", "value": v}]
         elif kind == "exc":
             j["plan"] = [{"k": "raise", "msg": f"bad {i}"}]
+        elif kind == "badret":
+            j["plan"] = [{"k": "badret"}]            # the actor returns something the converter cannot encode
         elif kind == "recurring":
             # a recurring job: every iteration is an execution of its own and overwrites the bucket of the one before
             j["defer_by"] = rng.choice([1 * S, 2 * S])
@@ -75,6 +77,8 @@ def expected_bucket(st: dict, k: int) -> dict | None:
         return {"success": True, "data": json.dumps(st.get("value", k), separators=(",", ":")), "exception": None}
     if kind == "raise":
         return {"success": False, "data": st.get("msg", f"boom{k}"), "exception": "PlannedError"}
+    if kind == "badret":
+        return {"success": False, "data": None, "exception": "TypeError"}      # (text of the encoder's error: not compared)
     if kind == "eager":
         last = [p for p in st.get("pre", []) if isinstance(p, str)]
         if not last:
@@ -174,7 +178,8 @@ def check(o: dict, model: Model, res: Result, label: str) -> None:
             continue
         for who in ("fresh", "long_lived"):
             b = r[who]
-            ok = b is not None and b["success"] == exp["success"] and b["data"] == exp["data"] and b["exception"] == exp["exception"] \
+            ok = b is not None and b["success"] == exp["success"] and (exp["data"] is None or b["data"] == exp["data"]) \
+                and b["exception"] == exp["exception"] \
                 and b["started"] <= b["finished"] and b["ttl"] == j.get("result_ttl", 86400 * S)
             if not ok:
                 res.bad("impl", f"Job.result ({who} Job object) does not hold the outcome of the latest execution", case=case,
